@@ -42,13 +42,20 @@ func VH_C15_wildcard() {
 	a, b := m.Snapshot(dstA), m.Snapshot(dstB)
 	v.Assume(len(a) == len(b))
 	ci := CopyInfo{AllowWildcards: true}
-	errA := Copy(context.Background(), src, "t/x*", dstA, "out/", WithCopyInfo(ci))
+	dstArg := []string{"out/", "out"}[v.Choose("dst-arg", 2)]
+	if dstArg == "out" {
+		// without a trailing separator a matching symlink can itself become the destination path, which
+		// a later individual copy then resolves (path arguments are resolved inside the root) while the
+		// wildcard copy resolved it once: the statement does not define that corner, so it is left out
+		v.Assume(!hasSymlinkMatch(src))
+	}
+	errA := Copy(context.Background(), src, "t/x*", dstA, dstArg, WithCopyInfo(ci))
 	var errB error
 	nMatch := 0
 	for _, n := range []string{"x1", "x2"} {
 		if present[n] {
 			nMatch++
-			if e := Copy(context.Background(), src, "t/"+n, dstB, "out/"); e != nil && errB == nil {
+			if e := Copy(context.Background(), src, "t/"+n, dstB, dstArg); e != nil && errB == nil {
 				errB = e
 			}
 		}
@@ -73,5 +80,14 @@ func VH_C15_wildcard() {
 		}
 		v.Assert(d.Kind == ref[i].Kind && string(d.Data) == string(ref[i].Data) && d.Target == ref[i].Target && d.Perm == ref[i].Perm && d.Uid == ref[i].Uid, "each entry of the union is the same as in the individual copy")
 	}
-	v.Assert(findEntry(after, "out/y") == nil, "an entry that does not match the wildcard is not copied")
+	v.Assert(findEntry(after, "out/y") == nil && findEntry(after, "y") == nil, "an entry that does not match the wildcard is not copied")
+}
+
+func hasSymlinkMatch(src string) bool {
+	for _, e := range m.Snapshot(src) {
+		if (e.Path == "t/x1" || e.Path == "t/x2") && e.Kind == m.KSymlink {
+			return true
+		}
+	}
+	return false
 }
